@@ -16,6 +16,7 @@ import (
 
 	specqbft "github.com/bloxapp/ssv-spec/qbft"
 	spectypes "github.com/bloxapp/ssv-spec/types"
+	"github.com/bloxapp/ssv/protocol/v2/qbft/instance"
 	"github.com/herumi/bls-eth-go-binary/bls"
 
 	"verifharness/lib/ev"
@@ -147,7 +148,7 @@ type stats struct {
 func checkTimeoutClause(r *ev.Run, w *qnet.World, st *stats) {
 	for _, o := range w.Undecided() {
 		prev := o.Inst(w.C.Height).State.Round
-		if int(prev)+1 >= 15 { // instance.CutoffRound
+		if int(prev) >= instance.CutoffRound { // from the cut-off round on the instance is stopped
 			continue
 		}
 		if !o.HasTimer {
@@ -280,6 +281,30 @@ func runJob(r *ev.Run, c *qnet.Cfg, k int, every int) stats {
 }
 
 // faultFree: every correct operator decides in round 1 on the leader's value.
+// timeoutLadder: with every message lost, all operators time out round after round; the timeout
+// clause is checked for every operator in every round up to and including the last round before
+// the cut-off (instance.CutoffRound-1 -> CutoffRound), which the message-driven search never reaches.
+func timeoutLadder(r *ev.Run, st *stats) {
+	for _, h := range []specqbft.Height{0, 1} {
+		c := &qnet.Cfg{N: 4, Height: h, MaxRound: specqbft.Round(instance.CutoffRound + 1), Role: spectypes.BNRoleAttester}
+		c.Init()
+		c.Start = map[spectypes.OperatorID]byte{}
+		for _, id := range c.Honest {
+			c.Start[id] = 'A'
+		}
+		w, _ := qnet.NewWorld(c, qnet.NewPool())
+		for round := 1; round < instance.CutoffRound; round++ {
+			for len(w.Pending) > 0 { // everything in flight is lost
+				w.Apply(qnet.Event{Kind: qnet.DropAll})
+			}
+			checkTimeoutClause(r, w, st)
+			w.Apply(qnet.Event{Kind: qnet.TimeoutAll})
+			st.Transitions++
+		}
+		st.Hist[fmt.Sprintf("timeout ladder to round %d", instance.CutoffRound)]++
+	}
+}
+
 func faultFree(r *ev.Run, st *stats) {
 	for _, h := range []specqbft.Height{0, 1, 2, 3, 4, 5} {
 		for mask := 0; mask < 16; mask++ {
@@ -360,6 +385,7 @@ func main() {
 			var st stats
 			st.Hist = map[string]int{}
 			faultFree(r, &st)
+			timeoutLadder(r, &st)
 			r.Emit(st)
 		}
 		r.WorkerDone()
